@@ -88,10 +88,27 @@ def storedCoeff (t : Ty) : Stored → Option Int
 /-- nearest storable value (clamp) -/
 def clamp (t : Ty) (c : Int) : Int := if c < t.lo then t.lo else if c > t.hi then t.hi else c
 
+/-- the exact (unrounded) value lies within the bounds of the type. For DECIMAL the bound is on the
+rounded value only (always `true` here). -/
+def exactInBounds (t : Ty) (x : Int × Nat) : Bool :=
+  match t with
+  | .dec _ _ _ => true
+  | t => decide (t.lo * 10 ^ x.2 ≤ x.1 ∧ x.1 ≤ t.hi * 10 ^ x.2)
+
+/-- the value IGNORE mode has to store for a value that is not storable: the nearest bound; for
+YEAR, MySQL's documented `0000`. -/
+def nearest (t : Ty) (tg : Int) : Int :=
+  match t with
+  | .year => 0
+  | t => clamp t tg
+
 /-- What the property demands of `Convert` on a numeric value `v` (`none`: not determined — strings,
-YEAR two-digit inputs): either the exact (rounded-to-scale) value with `InRange` and no error, or,
-when that is not storable, a report (flag ≠ InRange or an error) and — if a value is returned for
-IGNORE mode — the nearest storable one. -/
+YEAR two-digit inputs). With `tg` = the value rounded (half away from zero) to the type's scale:
+* `tg` storable and the exact value within the type's bounds: the stored value is `tg`, `InRange`, no error;
+* `tg` storable but the exact value beyond a bound (`MaxInt64 + 0.3` rounds onto the bound): `tg`
+  with or without a report, or a fatal error;
+* `tg` not storable: a report (flag ≠ InRange or an error) and — if a value is returned for IGNORE
+  mode — the nearest storable one. -/
 def acceptableConvert (t : Ty) (v : Val) (r : CRes) : Option Bool :=
   match v with
   | .null => some (r == (⟨.null, .inRange, .none⟩ : CRes))
@@ -102,10 +119,31 @@ def acceptableConvert (t : Ty) (v : Val) (r : CRes) : Option Bool :=
       let tg := target t x
       if t = .year ∧ 1 ≤ tg ∧ tg ≤ 99 then none
       else if t.storable tg then
-        some (r.err == Err.none && r.flag == Flag.inRange && storedCoeff t r.val == some tg)
+        if exactInBounds t x then
+          some (r.err == Err.none && r.flag == Flag.inRange && storedCoeff t r.val == some tg)
+        else some (r.err == Err.fatal || storedCoeff t r.val == some tg)
       else
         some (!(conversionOk r) &&
-          (r.err == Err.fatal || storedCoeff t r.val == some (clamp t tg)))
+          (r.err == Err.fatal || storedCoeff t r.val == some (nearest t tg)))
+
+/-- What the property demands of the row that `INSERT` (strict) / `INSERT IGNORE` leaves behind. -/
+def acceptableOutcome (ignore : Bool) (t : Ty) (v : Val) (o : Outcome) : Option Bool :=
+  match v with
+  | .null => some (o == .stored .null false)
+  | v =>
+    match numOf v with
+    | none => none
+    | some x =>
+      let tg := target t x
+      if t = .year ∧ 1 ≤ tg ∧ tg ≤ 99 then none
+      else
+        match o with
+        | .rejected =>
+          -- strict mode rejects what is not storable (or beyond a bound); IGNORE never rejects
+          some (!ignore && !(t.storable tg && exactInBounds t x))
+        | .stored s w =>
+          if t.storable tg then some (storedCoeff t s == some tg)          -- exact: warning optional
+          else some (ignore && w && storedCoeff t s == some (nearest t tg)) -- changed ⇒ IGNORE, warned, nearest
 
 /-! ## Regions (C27) -/
 
@@ -131,14 +169,11 @@ def bit_negative_reinterpreted (t : Ty) (v : Val) : Prop :=
   | .bit _, some x => x.1 < 0
   | _, _ => False
 
-/-- BIGINT: a decimal strictly between `MaxInt64` and `MaxInt64 + 0.5` (or the mirror image below
-`MinInt64`) is flagged Overflow although it rounds to a storable value — harmless direction (reports
-where it could store); listed so that the description of `acceptableConvert` is complete. -/
-def int64_decimal_just_beyond_bound (t : Ty) (v : Val) : Prop :=
-  match t, v with
-  | .int it, .d c s => (it = .i64 ∨ it = .u64) ∧ s > 0 ∧
-      ((decGt c s maxI64 ∧ it = .i64) ∨ (decLt c s minI64 ∧ it = .i64) ∨ (decGt c s maxU64 ∧ it = .u64))
-  | _, _ => False
+/-- `INSERT IGNORE` of a value that `Convert` refuses with an error and no value (DECIMAL beyond the
+precision, YEAR outside 1901..2155, BIT beyond the width): the type's zero is stored instead of the
+nearest storable value. For YEAR zero *is* the demanded value, so YEAR is not in the region. -/
+def ignore_stores_zero_not_nearest (t : Ty) (v : Val) : Prop :=
+  (convert t v).err = .fatal ∧ v ≠ .null ∧ t ≠ .year
 
 instance (t v) : Decidable (unsigned_underflow_wraps t v) := by
   unfold unsigned_underflow_wraps; split <;> infer_instance
@@ -146,7 +181,7 @@ instance (t v) : Decidable (year_decimal_beyond_int64_becomes_zero t v) := by
   unfold year_decimal_beyond_int64_becomes_zero; split <;> infer_instance
 instance (t v) : Decidable (bit_negative_reinterpreted t v) := by
   unfold bit_negative_reinterpreted; split <;> infer_instance
-instance (t v) : Decidable (int64_decimal_just_beyond_bound t v) := by
-  unfold int64_decimal_just_beyond_bound; split <;> infer_instance
+instance (t v) : Decidable (ignore_stores_zero_not_nearest t v) := by
+  unfold ignore_stores_zero_not_nearest; infer_instance
 
 end Gms.Store
